@@ -309,3 +309,21 @@ func verifFS(op, path string) {
 		(*hp)(op, path)
 	}
 }
+
+// ---------------------------------------------------------------- scan buffer poisoning
+
+var verifPoisonOn atomic.Bool
+
+// VerifSetPoison makes putScanBuffer overwrite every buffer it receives (0xAA) before pooling it,
+// so any view that outlives its buffer shows up as corrupted data.
+func VerifSetPoison(on bool) { verifPoisonOn.Store(on) }
+
+func verifPoison(buf []byte) {
+	if !verifPoisonOn.Load() {
+		return
+	}
+	full := buf[:cap(buf)]
+	for i := range full {
+		full[i] = 0xAA
+	}
+}
